@@ -16,6 +16,12 @@ Theorem C03_kill_tables_across_restarts le t o sc k l n :
   rreach le t -> DbInv (execs (crash_at le k t o sc) (firstn n l)).
 Proof. exact (rreach_kill_tables le t o sc k l n). Qed.
 
+(* hence every statement of the development proved under the tower invariant holds in all those states *)
+Theorem C03_invariant_statements_lift (P : tower -> Prop) :
+  (forall t, Inv t -> P t) -> forall le t, rreach le t -> P t.
+Proof. exact (rreach_lifts P). Qed.
+
+Print Assumptions C03_invariant_statements_lift.
 Print Assumptions C03_invariant_across_restarts.
 Print Assumptions C03_integrity_across_restarts.
 Print Assumptions C03_kill_tables_across_restarts.
